@@ -1356,6 +1356,72 @@ def judgeC01 (ops : List OpRec) : List String :=
     | none => s
   s.out
 
+/-! ### C08 -/
+
+structure J08 where
+  cluster : Cluster := {}
+  storage : String := "none"
+  group : Bytes := []
+  /-- marks: (topic, partition) ↦ (highest consumed mark, changed since the last successful commit) -/
+  marks : List ((Bytes × Int) × (Int × Bool)) := []
+  spec : List (Bytes × Int) := []
+  out : List String := []
+
+def judgeC08 (ops : List OpRec) : List String :=
+  let v (s : J08) (sig : String) (op : OpRec) (d : String) : J08 :=
+    { s with out := s.out ++ [s!"{sig} | op {op.idx} `{" ".intercalate (op.toks.take 1)}`: {d}"] }
+  let s := ops.foldl (fun (s : J08) op =>
+    let s := { s with cluster := applySetup s.cluster op.setup }
+    let c := s.cluster
+    let s := match op.toks with
+    | "consumer_create" :: _ :: opts =>
+      if op.result != "ok" then { s with marks := [] } else
+      let group := ((lastOpt opts "group").bind fromHex).getD []
+      let storage := (lastOpt opts "storage").getD "none"
+      -- a new consumer of the group starts from what the coordinator has stored: marks = stored - 1, clean
+      let marks : List ((Bytes × Int) × (Int × Bool)) := c.groups.filterMap fun (e : (Bytes × Bytes × Int) × Int) =>
+        if e.1.1 == group && e.2 != -1 && !group.isEmpty && storage != "none" then some ((e.1.2.1, e.1.2.2), (e.2 - 1, false)) else none
+      { s with group := group, storage := storage, marks := marks }
+    | ["consumer_drop"] => { s with marks := [] }
+    | ["consume", t, p, o] =>
+      match fromHex t, p.toInt?, o.toInt? with
+      | some t, some p, some o =>
+        if op.result != "ok" then s else
+        match s.marks.find? (fun (x : (Bytes × Int) × (Int × Bool)) => x.1 == (t, p)) with
+        | some (_, (m, _)) =>
+          if o > m then { s with marks := (s.marks.filter fun (x : (Bytes × Int) × (Int × Bool)) => x.1 != (t, p)) ++ [((t, p), (o, true))] } else s
+        | none => { s with marks := s.marks ++ [((t, p), (o, true))] }
+      | _, _, _ => s
+    | ["last_consumed", t, p] =>
+      match fromHex t, p.toInt? with
+      | some t, some p =>
+        let want := match s.marks.find? (fun (x : (Bytes × Int) × (Int × Bool)) => x.1 == (t, p)) with
+          | some (_, (m, _)) => s!"ok {m}"
+          | none => "ok none"
+        if op.result == want then s else v s "C08-mark" op s!"last_consumed_message says `{op.result}`, the highest mark is `{want}` (marks never move backwards)"
+      | _, _ => s
+    | ["commit"] =>
+      let dirty := s.marks.filter fun (x : (Bytes × Int) × (Int × Bool)) => x.2.2
+      let want := sortBy (· < ·) (dirty.map fun (x : (Bytes × Int) × (Int × Bool)) => s!"{toHexTok x.1.1}/{x.1.2}@{x.2.1 + 1}")
+      let commits : List (Bytes × Request) := (framesOf op).filter fun (x : Bytes × Request) => x.2.header.apiKey == 8
+      let s := commits.foldl (fun (s : J08) (x : Bytes × Request) => match x.2.body with
+        | ReqBody.offsetCommit g _ _ _ ts =>
+          let got := sortBy (· < ·) (ts.flatMap fun (tp : Bytes × List CommitPart) => tp.2.map fun (cp : CommitPart) => s!"{toHexTok tp.1}/{cp.partition}@{cp.offset}")
+          let s := if got == want then s else v s "C08-commit-content" op s!"commit request carries {got}; the marks changed since the last successful commit, plus one, are {want}"
+          let s := if g == s.group then s else v s "C08-commit-group" op "group"
+          let ver := x.2.header.apiVersion
+          if (s.storage == "zk" && ver == 0) || (s.storage == "kafka" && ver == 1) then s else v s "C08-commit-version" op s!"version {ver} with storage {s.storage}"
+        | _ => s) s
+      let s := if want.isEmpty && !commits.isEmpty then v s "C08-commit-without-change" op "a commit request was sent although no mark changed" else s
+      if op.result == "ok" then
+        let s := if !want.isEmpty && commits.isEmpty then v s "C08-commit-not-sent" op s!"commit returned ok without sending {want}" else s
+        { s with marks := s.marks.map fun (x : (Bytes × Int) × (Int × Bool)) => (x.1, (x.2.1, false)) }
+      else s
+    | _ => s
+    { s with cluster := evolve s.cluster op }) ({} : J08)
+  -- resuming after a crash / restart is C07's statement evaluated on the coordinator's store at that moment
+  s.out ++ judgeC07 ops
+
 def judge (prop : String) (lines : List String) : List String :=
   let ops := parseOps lines
   match prop with
@@ -1374,6 +1440,7 @@ def judge (prop : String) (lines : List String) : List String :=
   | "C02" => judgeC02 ops
   | "C04" => judgeC04 ops
   | "C01" => judgeC01 ops
+  | "C08" => judgeC08 ops
   | _ => []
 
 end Kafka.Judge
